@@ -211,9 +211,18 @@ package keepclient
 //@   calls sync.Mutex.Unlock#1: requires fresh || (ok0 && e1)
 //@   ensures result1 == nil && !fresh ==> ok0 && e1
 
+// BlockCache.ReadAt serves bytes only from a block that BlockCache.Get
+// returned without error for this locator (Get re-fetches an entry whose
+// earlier fetch failed verification).
 //@ func BlockCache.ReadAt property C03
 //@   requires off >= 0 && len(locator) >= 32
 //@   ensures result1 == nil ==> 0 <= result0 && result0 <= len(p)
+//@   ghost called bool = false
+//@   ghost gerr error = nil
+//@   calls BlockCache.Get#1: requires $0 == kc && $1 == locator
+//@   calls BlockCache.Get#1: set called = true
+//@   calls BlockCache.Get#1: set gerr = $r1
+//@   ensures result1 == nil ==> called && gerr == nil
 
 // ---------------------------------------------------- C06: index completeness
 //@ func KeepClient.GetIndex property C06 safety -bounds
@@ -257,8 +266,9 @@ package keepclient
 // as not read-only, and every service offered for writing is also a local
 // root; a writable non-disk service makes the replicas-per-service count
 // unknown (0), otherwise it is 1.
-//@ func KeepClient.setServiceRoots trusted
+//@ func KeepClient.setServiceRoots property C11
 //@   modifies KeepClient.localRoots KeepClient.writableLocalRoots KeepClient.gatewayRoots
+//@   ensures kc.localRoots == locals && kc.writableLocalRoots == writables && kc.gatewayRoots == gateways
 //@ spec macro listedWritable(list, n, u) bool = exists k int :: 0 <= k && k < n && list.Items[k].Uuid == u && !list.Items[k].ReadOnly
 //@ func KeepClient.loadKeepServers property C11 safety -bounds
 //@   calls KeepClient.setServiceRoots#1: requires $0 == localRoots && $1 == writableLocalRoots
